@@ -1,7 +1,12 @@
 // S-harness for cocls::queue<int>, cocls::queue<void> and cocls::limited_queue<int> (C09, C10).
 // Reads cases from stdin, prints one canonical line per operation (see lean/Drivers/C09.lean, C10.lean).
+// Kinds: `lq <limit>` (C10, run_case), `q` / `vq` (C09 sequential, run_qcase), `mtq` / `mtv` (C09 threads, run_mtcase).
 #include "common.h"
 #include <cocls/queue.h>
+#include <cocls/async.h>
+#include <atomic>
+#include <thread>
+#include <unistd.h>
 
 using namespace cocls;
 using vh::test_exc;
@@ -83,6 +88,272 @@ void run_case(std::istream &in, std::size_t limit) {
     }
 }
 
+// ---------------------------------------------------------------------------------------------
+// C09: cocls::queue<int> / cocls::queue<void> with future-based pops (`pop`) and coroutine
+// consumers (`cons n`: a detached coroutine that co_awaits pop() up to n times, one after the
+// other, and stops at the first exception).  Pop ids are global, in the order of the pop() calls.
+// ---------------------------------------------------------------------------------------------
+template <typename Q, typename T>
+struct qcase {
+    struct rec {
+        std::unique_ptr<future<T>> f;   // future-based pop
+        bool coro = false;              // issued by a consumer coroutine
+        bool done = false;              // coroutine pop: outcome recorded
+        std::string out;
+        bool issue_reported = false;
+        bool reported = false;
+    };
+    std::unique_ptr<Q> q;
+    std::deque<rec> pops;
+
+    void poll(std::vector<std::string> &evs) {
+        for (std::size_t i = 0; i < pops.size(); ++i) {
+            rec &r = pops[i];
+            if (r.reported) continue;
+            if (r.coro) {
+                if (r.done) {
+                    r.reported = r.issue_reported = true;
+                    evs.push_back("pop#" + std::to_string(i) + "=" + r.out);
+                } else if (!r.issue_reported) {
+                    r.issue_reported = true;
+                    evs.push_back("pop#" + std::to_string(i) + "+");
+                }
+            } else if (r.f->ready()) {
+                r.reported = true;
+                evs.push_back("pop#" + std::to_string(i) + "=" + vh::outcome(*r.f));
+            }
+        }
+    }
+};
+
+template <typename Q, typename T>
+async<void> consumer(qcase<Q, T> &c, int n) {
+    for (int k = 0; k < n; ++k) {
+        std::size_t id = c.pops.size();
+        c.pops.emplace_back();
+        c.pops[id].coro = true;
+        std::string out;
+        bool stop = false;
+        try {
+            if constexpr (std::is_void_v<T>) {
+                co_await c.q->pop();
+                out = "ok";
+            } else {
+                int v = co_await c.q->pop();
+                out = "v:" + std::to_string(v);
+            }
+        } catch (const await_canceled_exception &) {
+            out = "canceled"; stop = true;
+        } catch (const test_exc &e) {
+            out = "exc:" + std::to_string(e.code); stop = true;
+        } catch (...) {
+            out = "other"; stop = true;
+        }
+        c.pops[id].out = out;
+        c.pops[id].done = true;
+        if (stop) break;    // in particular: never touch the queue again after it was destroyed
+    }
+}
+
+template <typename Q, typename T>
+void run_qcase(std::istream &in) {
+    qcase<Q, T> c;
+    c.q.reset(new Q());
+    std::vector<std::string> evs;
+    std::string line;
+    auto swallow = [&] {
+        while (std::getline(in, line)) {
+            auto w2 = vh::split(line);
+            if (!w2.empty() && w2[0] == "end") break;
+        }
+    };
+    while (std::getline(in, line)) {
+        auto w = vh::split(line);
+        if (w.empty()) continue;
+        std::ostringstream head;
+        if (w[0] == "end") {
+            c.q.reset();
+            c.poll(evs);
+            vh::emit("end", evs);
+            return;
+        } else if (w[0] == "push") {
+            bool r;
+            if constexpr (std::is_void_v<T>) {
+                r = c.q->push();
+            } else {
+                int v = w.size() > 1 ? atoi(w[1].c_str()) : 0;
+                r = c.q->push(v);
+            }
+            head << "push woke=" << r;
+        } else if (w[0] == "pop") {
+            std::size_t id = c.pops.size();
+            c.pops.emplace_back();
+            c.pops[id].f.reset(new future<T>([&] { return c.q->pop(); }));
+            std::string st = vh::outcome(*c.pops[id].f);
+            if (st != "pending") c.pops[id].reported = true;
+            head << "pop#" << id << " " << st;
+        } else if (w[0] == "cons" && w.size() > 1) {
+            int n = atoi(w[1].c_str());
+            consumer<Q, T>(c, n).detach();     // the discarded suspend_point starts the coroutine right here
+            head << "cons";
+        } else if (w[0] == "upop" && w.size() > 1) {
+            int code = atoi(w[1].c_str());
+            bool r = c.q->unblock_pop(std::make_exception_ptr(test_exc(code)));
+            head << "upop " << r;
+        } else if (w[0] == "size") {
+            head << "size " << c.q->size();
+        } else if (w[0] == "empty") {
+            head << "empty " << c.q->empty();
+        } else if (w[0] == "destroy") {
+            c.q.reset();
+            c.poll(evs);
+            vh::emit("destroy", evs);
+            swallow();
+            vh::emit("end", evs);
+            return;
+        } else {
+            head << "bad-op";
+        }
+        c.poll(evs);
+        vh::emit(head.str(), evs);
+    }
+}
+
+// ---------------------------------------------------------------------------------------------
+// C09 thread suite: P producer threads x N items, C consumer threads blocking in pop().wait().
+// Only aggregated, schedule-independent facts are printed.
+//   mode 0: every consumer pops a fixed quota;  mode 1: consumers pop until they are failed by
+//   unblock_pop (the main thread unblocks after all producers are done).
+// ---------------------------------------------------------------------------------------------
+struct mt_rng {
+    unsigned long long s;
+    explicit mt_rng(unsigned long long seed) : s(seed * 6364136223846793005ULL + 1442695040888963407ULL) {}
+    unsigned next() { s = s * 6364136223846793005ULL + 1442695040888963407ULL; return (unsigned)(s >> 33); }
+};
+
+template <typename T>
+std::string run_mt(int P, int C, int N, int mode, unsigned seed) {
+    using Q = queue<T>;
+    const long long total = (long long)P * N;
+    auto q = std::make_unique<Q>();
+    std::vector<std::vector<int>> got(C);
+    std::vector<long long> okcnt(C, 0);
+    std::vector<int> excs(C, 0), bad(C, 0);
+    std::atomic<int> exited{0};
+    std::atomic<bool> stop_mon{false};
+    std::atomic<int> go{0};
+    std::atomic<long long> mon_bad{0};
+    std::vector<std::thread> prod, cons;
+    auto wait_go = [&] { go.fetch_add(1); while (go.load() < P + C) std::this_thread::yield(); };
+    for (int j = 0; j < C; ++j) {
+        cons.emplace_back([&, j] {
+            mt_rng r(seed * 131 + 7 * j + 1);
+            long long quota = total / C + (j == 0 ? total % C : 0);
+            wait_go();
+            for (long long k = 0; mode == 1 || k < quota; ++k) {
+                try {
+                    if constexpr (std::is_void_v<T>) {
+                        q->pop().wait();
+                        ++okcnt[j];
+                    } else {
+                        int v = q->pop().wait();
+                        got[j].push_back(v);
+                        ++okcnt[j];
+                    }
+                } catch (const test_exc &e) {
+                    if (e.code == 7 && mode == 1) ++excs[j]; else ++bad[j];
+                    break;
+                } catch (...) {
+                    ++bad[j];
+                    break;
+                }
+                if (r.next() % 16 == 0) std::this_thread::yield();
+            }
+            exited.fetch_add(1);
+        });
+    }
+    for (int p = 0; p < P; ++p) {
+        prod.emplace_back([&, p] {
+            mt_rng r(seed * 977 + 13 * p + 5);
+            wait_go();
+            for (int k = 0; k < N; ++k) {
+                if constexpr (std::is_void_v<T>) q->push(); else q->push(p * 1000000 + k);
+                if (r.next() % 8 == 0) std::this_thread::yield();
+            }
+        });
+    }
+    std::thread mon([&] {
+        while (!stop_mon.load()) {
+            std::size_t s = q->size();
+            bool e = q->empty();
+            (void)e;
+            if ((long long)s > total) mon_bad.fetch_add(1);
+            std::this_thread::yield();
+        }
+    });
+    for (auto &t : prod) t.join();
+    int unblocked = 0;
+    if (mode == 1) {
+        while (exited.load() < C) {
+            bool r = q->unblock_pop(std::make_exception_ptr(test_exc(7)));
+            if (r) ++unblocked; else std::this_thread::yield();
+        }
+    }
+    for (auto &t : cons) t.join();
+    stop_mon.store(true);
+    mon.join();
+    long long received = 0, dup = 0, unknown = 0, missing = 0, order_bad = 0, nexc = 0, nbad = 0;
+    for (int j = 0; j < C; ++j) { received += okcnt[j]; nexc += excs[j]; nbad += bad[j]; }
+    if constexpr (!std::is_void_v<T>) {
+        std::vector<int> seen((std::size_t)total, 0);
+        for (int j = 0; j < C; ++j) {
+            std::vector<int> last(P, -1);
+            std::vector<char> badp(P, 0);
+            for (int v : got[j]) {
+                int p = v / 1000000, k = v % 1000000;
+                if (v < 0 || p >= P || k >= N) { ++unknown; continue; }
+                ++seen[(std::size_t)p * N + k];
+                if (k <= last[p]) badp[p] = 1;
+                last[p] = k;
+            }
+            for (int p = 0; p < P; ++p) order_bad += badp[p];
+        }
+        for (auto n : seen) { if (n == 0) ++missing; if (n > 1) dup += n - 1; }
+    }
+    std::size_t left = q->size();
+    bool empty = q->empty();
+    q.reset();
+    std::ostringstream os;
+    os << "run total=" << total << " received=" << received << " dup=" << dup << " unknown=" << unknown
+       << " missing=" << missing << " order_bad=" << order_bad << " unblocked=" << unblocked << " exc=" << nexc
+       << " bad=" << nbad << " left=" << left << " empty=" << empty << " mon_bad=" << mon_bad.load();
+    return os.str();
+}
+
+void run_mtcase(std::istream &in, bool is_void, const std::vector<std::string> &hdr) {
+    int P = hdr.size() > 3 ? atoi(hdr[3].c_str()) : 1;
+    int C = hdr.size() > 4 ? atoi(hdr[4].c_str()) : 1;
+    int N = hdr.size() > 5 ? atoi(hdr[5].c_str()) : 1;
+    int mode = hdr.size() > 6 ? atoi(hdr[6].c_str()) : 0;
+    unsigned seed = hdr.size() > 7 ? (unsigned)atoi(hdr[7].c_str()) : 1;
+    P = std::max(1, std::min(P, 8)); C = std::max(1, std::min(C, 8)); N = std::max(1, std::min(N, 100000));
+    std::string line;
+    std::vector<std::string> evs;
+    while (std::getline(in, line)) {
+        auto w = vh::split(line);
+        if (w.empty()) continue;
+        if (w[0] == "end") { vh::emit("end", evs); return; }
+        if (w[0] == "run") {
+            alarm(60);      // a lost wake-up shows as a hang: die instead (reported as a crash)
+            std::string r = is_void ? run_mt<void>(P, C, N, mode, seed) : run_mt<int>(P, C, N, mode, seed);
+            alarm(0);
+            vh::emit(r, evs);
+        } else {
+            vh::emit("bad-op", evs);
+        }
+    }
+}
+
 int main() {
     std::string line;
     while (std::getline(std::cin, line)) {
@@ -90,8 +361,10 @@ int main() {
         if (w.empty() || w[0] != "case") continue;
         std::cout << "case " << w[1] << "\n";
         const std::string &kind = w[2];
-        if (kind == "q") run_case<queue<int>, int, false>(std::cin, 0);
-        else if (kind == "vq") run_case<queue<void>, void, false>(std::cin, 0);
+        if (kind == "q") run_qcase<queue<int>, int>(std::cin);
+        else if (kind == "vq") run_qcase<queue<void>, void>(std::cin);
+        else if (kind == "mtq") run_mtcase(std::cin, false, w);
+        else if (kind == "mtv") run_mtcase(std::cin, true, w);
         else if (kind == "lq") run_case<lq_t, int, true>(std::cin, (std::size_t)atoi(w[3].c_str()));
         else std::cout << "bad-kind\n";
         std::cout.flush();
